@@ -32,6 +32,8 @@ def jobs(tier):
     for g in ("I1024", "I2048", "I3072", "toy11"):
         js.append(("job_int_laws", dict(_name="integer group %s: group laws" % g, gname=g)))
         js.append(("job_int_api", dict(_name="integer group %s: == / != / encode / decode / typing" % g, gname=g)))
+    for g in ("I1024", "toy11", "toy257", "sp61"):
+        js.append(("job_int_decoded", dict(_name="integer group %s: decoded elements are reduced members and obey the identity laws" % g, gname=g)))
     js.append(("job_ed_laws", dict(_name="Ed25519 class lattice: group laws")))
     js.append(("job_ed_api", dict(_name="Ed25519 class lattice: == / typing / negate / subtract")))
     js.append(("job_pool_ground", dict(_name="edge operands on the real API (ground)")))
@@ -42,7 +44,10 @@ def _int_group(gname):
     G = loader.MODS["groups"]
     if gname == "toy11":
         return G.IntegerGroup(p=23, q=11, g=2)
-    return getattr(G, gname)
+    if hasattr(G, gname):
+        return getattr(G, gname)
+    from checks.realtier import custom_world
+    return custom_world(gname)[0]
 
 
 def _beq(a, b):
@@ -170,6 +175,42 @@ def job_int_api(J, gname):
     Flags.pow_stub = None
 
 
+def job_int_decoded(J, gname):
+    """elements that enter through bytes_to_element: the laws jobs quantify over reduced subgroup members g^a, so a decoded
+    element must BE one (0 < value < p, member), and the identity / one-fold laws are run on the decoded object itself"""
+    from checks.c15 import member_pow_stub, MEMBER
+    G = loader.MODS["groups"]
+    g = _int_group(gname)
+    p, q, W = g.p, g.q, (g.p.bit_length() + 7) // 8
+    Flags.pow_stub = member_pow_stub(p, q)
+    J.bounds.update(group=gname, element_bytes=W)
+
+    def h(ctx):
+        b = SymBytes.fresh_chunk("eb", W)
+        ctx.data["sym"] = b
+        e = g.bytes_to_element(b)
+        z1, z2 = e.add(g.Zero), g.Zero.add(e)
+        return e, z1, z2, (e == z1), (e != z2), e.to_bytes()
+    try:
+        for r in J.explore(h):
+            b = r.ctx.data["sym"]
+            J.reach(r)
+            pcb = dict(cex=lambda m, b=b: dict(group=gname, a=1, b=2, c=3, n=1, m=1, enc=b.model_bytes(m)), oracle="laws")
+            if r.kind != "ret":
+                J.claim(r, "a refused string is out of range or not a member; nothing else raises (%s)" % type(r.value).__name__,
+                        z3.And(isinstance(r.value, ValueError),
+                               z3.Or(b.value() <= 0, b.value() >= p, z3.Not(MEMBER(b.value())))), **pcb)
+                continue
+            e, z1, z2, eq, ne, enc = r.value
+            as_term = lambda v: v if z3.is_expr(v) else B(v)
+            J.claim(r, "a decoded element is a reduced member: 0 < value < p", z3.And(T(e._e) > 0, T(e._e) < p, MEMBER(T(e._e))), **pcb)
+            J.claim(r, "decoded e: e + Zero and Zero + e have e's value", z3.And(T(z1._e) == T(e._e), T(z2._e) == T(e._e)), **pcb)
+            J.claim(r, "decoded e: e == e + Zero is True and e != Zero + e is False", z3.And(as_term(eq), z3.Not(as_term(ne))), **pcb)
+            J.claim(r, "decoded e encodes to the string it came from", SymBytes.of(enc).eq_term(b), **pcb)
+    finally:
+        Flags.pow_stub = None
+
+
 # ------------------------------------------------------------------ Ed25519
 def _ed_setup(ctx):
     E = loader.MODS["ed25519_basic"]
@@ -255,7 +296,48 @@ def job_pool_ground(J):
 
 
 # ------------------------------------------------------------------ oracle
-def oracle_laws(group, a, b, c, n, m):
+def _alt_encodings(g, group, enc):
+    """other byte strings that denote the same group element as the canonical `enc` (unreduced representatives); a decoder
+    may refuse them, but whatever it accepts is an element the laws have to hold for"""
+    out = []
+    if group == "Ed25519":
+        Q = 2 ** 255 - 19
+        v = int.from_bytes(enc, "little")
+        y, sign = v & ((1 << 255) - 1), v >> 255
+        if y + Q < 2 ** 255:
+            out.append(((y + Q) | (sign << 255)).to_bytes(32, "little"))
+        return out
+    p, W = g.p, len(enc)
+    v = int.from_bytes(enc, "big")
+    for j in (1, 2, 3):
+        if v + j * p < 256 ** W:
+            out.append((v + j * p).to_bytes(W, "big"))
+    return out
+
+
+def _decoded_element_laws(g, group, enc, q):
+    """identity / one-fold laws on an element decoded from `enc` (if the decoder accepts it)"""
+    try:
+        e = g.bytes_to_element(enc)
+    except Exception:
+        return None
+    Zero = g.Zero
+    try:
+        canon = e.to_bytes()
+        checks = [("e + Zero == e", e.add(Zero) == e), ("not (e + Zero != e)", not (e.add(Zero) != e)),
+                  ("Zero + e == e", Zero.add(e) == e), ("e*1 == e", e.scalarmult(1) == e), ("e*(q+1) == e", e.scalarmult(q + 1) == e),
+                  ("e == decode(encode(e))", g.bytes_to_element(canon) == e), ("not (e != decode(encode(e)))", not (g.bytes_to_element(canon) != e)),
+                  ("(e + Zero) encodes like e", e.add(Zero).to_bytes() == canon),
+                  ("e + e == e*2", e.add(e) == e.scalarmult(2)), ("e*q is Zero", e.scalarmult(q).to_bytes() == Zero.to_bytes())]
+    except Exception as ex:
+        return "an element decoded from %s on %s raises %s in the group operations" % (enc.hex()[:40], group, type(ex).__name__)
+    bad = [nm for nm, ok in checks if not ok]
+    if bad:
+        return "for the element decoded from %s on %s: %s fails" % (enc.hex()[:40], group, "; ".join(bad))
+    return None
+
+
+def oracle_laws(group, a, b, c, n, m, enc=None):
     """all laws on the real API with elements Base*a, Base*b, Base*c and edge scalars, against refimpl"""
     from checks import refimpl as R
     from checks import published_constants as PC
@@ -288,7 +370,24 @@ def oracle_laws(group, a, b, c, n, m):
             pass
         out.append(Base.scalarmult(k - 1).add(Base) if k > 1 else Base.scalarmult(k + 1).add(Base.scalarmult(-1)))
         out.append(Base.scalarmult(2 * k).scalarmult((q + 1) // 2))
+        for alt in _alt_encodings(g, group, e0.to_bytes()):
+            try:
+                out.append(g.bytes_to_element(alt))
+            except Exception:
+                pass
         return out
+    # elements that enter through the decoder (the model's string, and unreduced forms of a few members)
+    encs = [enc] if enc else []
+    for k in (1, 2, 3, 5, 7, q - 1):
+        for i in range(0, 40):
+            alts = _alt_encodings(g, group, Base.scalarmult((k + i) % q or 1).to_bytes())
+            if alts:
+                encs += alts
+                break
+    for e_ in encs:
+        bad = _decoded_element_laws(g, group, e_, q)
+        if bad:
+            return (True, bad)
     # value-equal elements in different representations behave identically
     for k in sorted({a % q or 1, b % q or 1, 1, 2, 5}):
         rs = reps(k)
